@@ -106,6 +106,14 @@ def _upper(t, facts=None):
             return upper(a, facts) * upper(b, facts)
         if op == '-':
             return upper(a, facts)
+        if op == '<<' and isinstance(b, K) and isinstance(b.v, int) and \
+                0 <= b.v < 64:
+            return upper(a, facts) << b.v
+        if op == '|':
+            ua, ub = upper(a, facts), upper(b, facts)
+            if ua == INF or ub == INF:
+                return INF
+            return (1 << max(ua.bit_length(), ub.bit_length())) - 1
         if op in ('//', '>>', '&', '%'):
             return upper(a, facts) if op != '&' else min(upper(a, facts),
                                                          upper(b, facts))
